@@ -179,7 +179,13 @@ func parseSx(s string, pos *int) (Sx, error) {
 // Rand is splitmix64; every random choice of a run derives from one state.
 type Rand struct{ s uint64 }
 
-func NewRand(seed uint64) *Rand { return &Rand{s: seed*0x9e3779b97f4a7c15 + 0x1234567} }
+func NewRand(seed uint64) *Rand {
+	// The state is the *mixed* seed: consecutive seeds must not give
+	// shifted copies of one stream.
+	r := &Rand{s: seed ^ 0x5851f42d4c957f2d}
+	r.s = r.U64()
+	return r
+}
 func (r *Rand) U64() uint64 {
 	r.s += 0x9e3779b97f4a7c15
 	z := r.s
